@@ -859,7 +859,7 @@ def remap_by_types(
                         found_type is not None
                         and found_type is not Any
                         and inspect.isclass(found_type)
-                        and found_type.__module__ != "builtins"
+                        and getattr(builtins, found_type.__name__, None) is not found_type
                         and not (
                             is_dataclass(found_type)
                             and not hasattr(found_type, t_node.func.value.attr)
